@@ -215,5 +215,29 @@ def check(ctx):
                            msg="receive window written in context %s" % tr.label(), nontrivial=False)
     ctx.count("publish_handler_paths", npub)
     ctx.count("pubrel_handler_paths", nrel)
+    # P7: what reaches onPublish is what the packet carried only if the PUBLISH decoder reads every field where the wire format puts
+    # it (and the PUBREL decoder the identifier); the acknowledgements echo the identifier only if their encoders put it there
+    from ..codec_cmp import compare_class
+    from ..codec_prims import check_primitives
+    from .c01 import loc
+    pmod = a.prog.modules.get("mqtt.pdu")
+    for name in ("PUBLISH", "PUBREL", "PUBACK", "PUBREC", "PUBCOMP"):
+        c = pmod.classes.get(name) if pmod else None
+        if c is None:
+            raise AnalysisError("anchor vanished: mqtt.pdu.%s" % name)
+        problems, stats, encm, decm = compare_class(a.prog, c)
+        bad = [q for q in problems if q.rule in ("L2", "L3", "L4", "L5")]
+        for q in bad:
+            ctx.ob("P7", "%s %s" % (name, q.what), False, where=loc(q.node, "src/mqtt/pdu.py:%d" % c.node.lineno), function="mqtt.pdu.%s" % name,
+                   construct="mqtt.pdu.%s/%s" % (name, q.what),
+                   msg="the %s codec does not put / read a field where the wire format has it: %s" % (name, q.msg))
+        if not bad:
+            ctx.ob("P7", "%s: every field is read / written at its wire position" % name, True, where="src/mqtt/pdu.py:%d" % c.node.lineno,
+                   construct="mqtt.pdu.%s/layout" % name, nontrivial=False)
+    probs, _facts = check_primitives(a.prog)
+    for q in probs:
+        if q.cls.startswith(("decode16Int", "decodeString", "decodeLength")):
+            ctx.ob("P7", "%s %s" % (q.cls, q.what), False, where=loc(q.node), function="mqtt.pdu.%s" % q.cls.split("/")[0],
+                   construct="mqtt.pdu.%s/%s" % (q.cls, q.what), msg="a decoding primitive the PUBLISH decoder relies on is wrong: " + q.msg)
     ctx.floor("PUBLISH handler paths", npub, 3)
     ctx.floor("PUBREL handler paths", nrel, 2)
